@@ -88,6 +88,21 @@ claim("C16", "exploration",
       "deterministic simulation with in-memory I/O seam, history check of the written artefact", "DESIGN.md 4 C16")
 
 
+claim("C17", "exploration",
+      "All 20 RTL queue classes (enq/deq, send/recv en-rdy, val-rdy, stream interfaces; normal/pipe/bypass; 1-entry "
+      "and multi-entry forms, capacities 1..6 incl. non-powers of two, Bits and struct entries) and the 3 CL queues "
+      "are driven for 40..200 cycles with seeded offers biased to the full/empty boundaries and to simultaneous "
+      "enq+deq, under every scheduler, with mid-run resets where the class reads reset. Every cycle rdy/val/en, head "
+      "message and count/num_free_entries are compared with a deque model per kind; the delivered sequence must equal "
+      "the accepted sequence; after offers stop the queue drains within cap+1 cycles. CL queues run inside a generated "
+      "top whose producer/consumer update_once blocks are ordered by the real scheduler from the queues' M() constraints.",
+      "valrdy_queues.py is not importable as shipped (InValRdyIfc missing); the harness supplies val/rdy/msg interfaces "
+      "to reach its logic. en is asserted only when the model says rdy. Known finding F11 (BypassQueue2RTL) is listed in "
+      "known_findings.json.",
+      "deterministic simulation of reactive components, seeded offer/stall/reset histories, FIFO refinement oracle",
+      "DESIGN.md 4 C17")
+
+
 def main():
   props = [json.loads(l)["id"] for l in open(os.path.join(VERIF, "properties.jsonl"))]
   checks = []
